@@ -228,7 +228,7 @@ def parts(tier):
             name="history",
             evaluate=evaluate,
             strategy=lambda: strategy(14 if tier == "quick" else 30),
-            budget={"quick": 400, "thorough": 60000},
+            budget={"quick": 400, "thorough": 120000},
             min_nontrivial={"quick": 100, "thorough": 15000},
             summarize=summarize,
         )
@@ -242,7 +242,7 @@ def parts(tier):
                 name="history-coverage-guided",
                 evaluate=evaluate,
                 strategy=lambda: strategy(14),
-                budget={"thorough": 64000},
+                budget={"thorough": 128000},
                 min_nontrivial={"thorough": 2000},
                 summarize=summarize,
                 fuzz={"instrument": ["sleap_nn.tracking"], "modules": TRACKING_MODULES},
